@@ -60,6 +60,10 @@ struct Op { int kind; int key; int variant; };   // key: index into key universe
 struct Obs { uint64_t inv, ret; int thread; Op op; int slot; bool found; int count; bool error; };
 static const int NKEY = 40;
 static char keyname[NKEY][24];
+// the documented comparison (ASCII letters fold, nothing else does), written here independently of the table's own helper
+// resource-provider prefixes must be URI schemes (letters, digits, + - .): the punctuation character of a key becomes a digit there
+static std::string provkey(int k) { std::string t = keyname[k]; for (auto& c : t) if (!isalnum((unsigned char)c)) c = (char)('0' + k % 2); return t; }
+static bool ci_equal(const char* a, const char* b) { for (; *a && *b; a++, b++) if (tolower((unsigned char)*a) != tolower((unsigned char)*b)) return false; return *a == *b; }
 static std::string casevar(const char* k, int v) {
   std::string s(k);
   for (size_t i = 0; i < s.size(); i++) if ((v >> (i % 3)) & 1) s[i] = (char)toupper(s[i]);
@@ -97,7 +101,7 @@ static void run_thread_table(int t, ThreadPlan* tp) {
         o.found = p != nullptr; o.slot = slot;
         if (p) {
           check_obj(p, "lookup by key");
-          if (!mujoco::CaseInsensitiveEqual(p->key, keyname[op.key])) violation("wrong-object", "lookup of %s returned %s", keyname[op.key], p->key);
+          if (!ci_equal(p->key, keyname[op.key])) violation("wrong-object", "lookup of %s returned %s", keyname[op.key], p->key);
           if (slot < 0) violation("slot-mismatch", "lookup by key found %s but reported slot %d", keyname[op.key], slot);
           const Payload* q = g_tab->GetAtSlot(slot);
           if (q != p) violation("slot-mismatch", "lookup by key and by slot %d disagree for %s", slot, keyname[op.key]);
@@ -295,7 +299,7 @@ static int base_plugins, base_providers;
 
 static void check_plugin(const mjpPlugin* p, int key, const char* how) {
   if (!p->name || !p->name[0]) violation("partial-object", "%s returned a plugin without a name", how);
-  if (!mujoco::CaseInsensitiveEqual(p->name, keyname[key])) violation("wrong-object", "%s for %s returned %s", how, keyname[key], p->name);
+  if (!ci_equal(p->name, keyname[key])) violation("wrong-object", "%s for %s returned %s", how, keyname[key], p->name);
   if (p->nattribute != 3 || !p->attributes) violation("partial-object", "%s: plugin %s has %d attributes", how, p->name, p->nattribute);
   for (int i = 0; i < 3; i++) if (!p->attributes[i] || strcmp(p->attributes[i], attr_a[i])) violation("partial-object", "%s: plugin %s attribute %d wrong", how, p->name, i);
   if (p->capabilityflags != (key % 2 ? mjPLUGIN_SENSOR : mjPLUGIN_ACTUATOR)) violation("partial-object", "%s: plugin %s has wrong capability flags", how, p->name);
@@ -310,7 +314,7 @@ static void run_thread_api(int t, ApiPlan* tp) {
       case O_REG_NEW: case O_REG_SAME: case O_REG_CONFLICT: {
         if (op.variant & 32) {   // resource provider
           mjpResourceProvider rp; mjp_defaultResourceProvider(&rp);
-          std::string pre = std::string("p") + keyname[op.key];
+          std::string pre = std::string("p") + provkey(op.key);
           rp.prefix = pre.c_str(); rp.open = op.kind == O_REG_CONFLICT ? ro_open2 : ro_open; rp.read = ro_read; rp.close = ro_close;
           jmp_buf jb; tl_jmp = &jb;
           if (setjmp(jb)) o.error = true; else o.slot = mjp_registerResourceProvider(&rp);
@@ -331,12 +335,12 @@ static void run_thread_api(int t, ApiPlan* tp) {
       }
       case O_GET_KEY: {
         if (op.variant & 32) {
-          std::string res = std::string("P") + casevar(keyname[op.key], op.variant) + ":file.x";
+          std::string res = std::string("P") + casevar(provkey(op.key).c_str(), op.variant) + ":file.x";
           const mjpResourceProvider* rp = mjp_getResourceProvider(res.c_str());
           o.found = rp != nullptr; o.kind += 100;
           if (rp) {
             if (!rp->prefix || !rp->open || !rp->read || !rp->close) violation("partial-object", "provider lookup returned an incomplete provider");
-            if (!mujoco::CaseInsensitiveEqual(rp->prefix, std::string("p") + keyname[op.key])) violation("wrong-object", "provider lookup for %s returned %s", res.c_str(), rp->prefix);
+            if (!ci_equal(rp->prefix, (std::string("p") + provkey(op.key)).c_str())) violation("wrong-object", "provider lookup for %s returned %s", res.c_str(), rp->prefix);
           }
         } else {
           int slot = -2;
@@ -386,7 +390,7 @@ static void run_api(uint64_t seed) {
     int slot = mjp_registerPlugin(&pl);
     if (slot != base_plugins + k) violation("bad-slot", "sequential plugin registration %d returned slot %d", k, slot);
     mjpResourceProvider rp; mjp_defaultResourceProvider(&rp);
-    std::string pre = std::string("p") + keyname[k];
+    std::string pre = std::string("p") + provkey(k);
     rp.prefix = pre.c_str(); rp.open = ro_open; rp.read = ro_read; rp.close = ro_close;
     int ps = mjp_registerResourceProvider(&rp);
     if (ps != base_providers + k + 1) violation("bad-slot", "sequential provider registration %d returned slot %d", k, ps);
@@ -453,7 +457,10 @@ int main(int argc, char** argv) {
   setvbuf(stdout, 0, _IOLBF, 0);
   mju_user_error = on_error;
   mju_user_warning = on_warning;
-  for (int k = 0; k < NKEY; k++) snprintf(keyname[k], sizeof keyname[k], "key%c%c%d", 'a' + k % 26, 'a' + (k * 7) % 26, k);
+  // keys come in pairs that differ in one punctuation character only ('[' / '{', '\\' / '|', ']' / '}', '^' / '~', '@' / '`': the characters that
+  // differ by the same bit as upper and lower case letters): distinct keys under the documented case-insensitive comparison
+  { static const char* pairs[] = {"[{", "\\|", "]}", "^~", "@`"};
+    for (int k = 0; k < NKEY; k++) { int j = k / 2; snprintf(keyname[k], sizeof keyname[k], "key%c%c%d%cz", 'a' + j % 26, 'a' + (j * 7) % 26, j, pairs[j % 5][k % 2]); } }
   std::string mode = g_args.opt.count("mode") ? g_args.opt["mode"] : "table";
   if (mode == "table") {
     for (uint64_t s = g_args.seed0; s < g_args.seed0 + g_args.n; s++) run_table(s);
